@@ -721,6 +721,7 @@ End Sched.
 (* ------------------------------------------------------------------ *)
 (* statements exported to props/C08.v                                   *)
 (* ------------------------------------------------------------------ *)
+Ltac splits := repeat match goal with |- _ /\ _ => split end.
 Definition geom_ok (g : geom) : Prop :=
   1 <= gM g /\ 1 <= gv g /\ 0 <= gH g < 4294967296 /\ (gmerged g = true -> gv g = 1 \/ gv g = 2).
 
